@@ -580,6 +580,11 @@ def probe_fixwindow(spec):
     elif fx['mode'] == 'subset':
         I = rs.rand(T) < 0.5
         steps = [t for t in range(T) if I[t]]
+    elif fx['mode'] == 'boollist':
+        # the mask as a plain python list of booleans
+        m = (np.arange(T) <= k) if k % 2 else (rs.rand(T) < 0.5)
+        I = [bool(v) for v in m]
+        steps = [t for t in range(T) if I[t]]
     elif fx['mode'] == 'index':
         steps = sorted(set(int(v) for v in rs.randint(0, T, size=max(1, T // 2))))
         I = list(steps)
@@ -607,6 +612,25 @@ def probe_fixwindow(spec):
     except Exception as e:
         o['fixed_error'] = repr(e)[:300]
         return o
+    if fx['mode'] == 'date':
+        # rolling use: ONE dictionary with a fix date, used on this grid and then on the grid moved on by some steps (same length)
+        try:
+            g2 = dict(spec['grid'])
+            stp = pd.Timedelta(tg.timepoints[1] - tg.timepoints[0]) if T > 1 else pd.Timedelta(1, 'h')
+            shift = 1 + k % 2
+            g2['start'] = str((pd.Timestamp(spec['grid']['start']) + shift * stp))[:16]
+            g2['end'] = str((pd.Timestamp(spec['grid']['end']) + shift * stp))[:16]
+            fw = {'I': I, 'x': np.zeros(5000)}
+            pa = mk_portfolio(spec)
+            pa.setup_optim_problem(mk_prices(spec), mk_grid(spec['grid']), fix_time_window=fw)
+            unchanged = fw['I'] is I or (not isinstance(fw['I'], np.ndarray) and fw['I'] == I)
+            fw['x'] = np.ones(5000)
+            opa = pa.setup_optim_problem(mk_prices(spec), mk_grid(g2), fix_time_window=fw)
+            pb = mk_portfolio(spec)
+            opb = pb.setup_optim_problem(mk_prices(spec), mk_grid(g2), fix_time_window={'I': I, 'x': np.ones(5000)})
+            o['reuse'] = {'dict_unchanged': bool(unchanged), 'same_bounds': bool(np.array_equal(opa.l, opb.l) and np.array_equal(opa.u, opb.u))}
+        except Exception as e:
+            o['reuse'] = {'error': repr(e)[:200]}
     try:
         pr3 = {kk: (v[::-1] * 0.75 + 0.5 if kk.startswith('p') else v) for kk, v in mk_prices(spec).items()}   # capacities given by key stay
         op3 = rebuilt(pr3)
